@@ -82,6 +82,18 @@ Definition vdetect (x : vpeer) : vpeer :=
   if token x then VPeer (cur x) false false (outq x)
   else VPeer (cur x) false false (outq x ++ match cur x with Some v => [v] | None => [] end).
 
+(* the host's queue goes out to the connected clients (what VSend host does) *)
+Definition vflush_host (s : vstate) : vstate :=
+  match vp s !! host with
+  | None => s
+  | Some x =>
+      match outq x with
+      | [] => s
+      | q => VState (<[host := VPeer (cur x) (dirty x) (token x) []]> (vp s)) (vconn s)
+                    (send_to (vlinks s) host (vconn s) q)
+      end
+  end.
+
 Definition vstep (s : vstate) (e : vevent) : option vstate :=
   match e with
   | VWrite p v =>
@@ -116,11 +128,15 @@ Definition vstep (s : vstate) (e : vevent) : option vstate :=
       end
   | VJoin c =>
       if (c =? host)%N || bool_decide (c ∈ vconn s) || pexists s c then None
-      else Some (VState (<[c := vpeer0]> (vp s)) (vconn s ++ [c])
-                        (match pcur s host with
-                         | Some v => push_link (vlinks s) host c [v]     (* the snapshot *)
-                         | None => vlinks s
-                         end))
+      else
+        (* repair of S21 (8f66353): send_initial_sync first sends what the host has detected and not
+           sent yet to the clients connected so far, then builds the snapshot *)
+        let s := vflush_host s in
+        Some (VState (<[c := vpeer0]> (vp s)) (vconn s ++ [c])
+                     (match pcur s host with
+                      | Some v => push_link (vlinks s) host c [v]     (* the snapshot *)
+                      | None => vlinks s
+                      end))
   end.
 
 Fixpoint vrun (s : vstate) (tr : list vevent) : option vstate :=
@@ -241,8 +257,8 @@ Fixpoint js_from (blk : list peer) (s : vstate) (tr : list vevent) : bool :=
   end.
 Definition joiners_settled (s : vstate) (tr : list vevent) : Prop := js_from [] s tr = true.
 
-(* every VJoin happens while the host has nothing queued (only relevant when the host itself writes:
-   see [C10_host_join_refuted]) *)
+(* every VJoin happens while the host has nothing queued (was needed when the host itself writes,
+   before the repair 8f66353 of S21: the join now flushes the queue first; kept for the old statement) *)
 Fixpoint joins_clean (s : vstate) (tr : list vevent) : bool :=
   match tr with
   | [] => true
